@@ -258,6 +258,11 @@ def shapes(tier, warnings=('all', 'none')):
         add('%d INCLUDE directives' % n, 'naming the input file itself', wrap("INCLUDE '@SELF@';\n" * n + ent()),
             label='6 or more INCLUDE directives' if n >= 6 else 'up to 5 INCLUDE directives')
     add('INCLUDE directive', 'naming a missing file', wrap("INCLUDE 'no_such_file.exp';\n" + ent()))
+    sup = 'ENTITY sup;\n  a : INTEGER;\nEND_ENTITY;\nENTITY sub\n  SUBTYPE OF (sup);\nWHERE\n  wr1 : %s;\nEND_ENTITY;\n'
+    add('group qualifier on a non-entity expression', 'aggregate initializer', wrap(sup % 'SIZEOF([1, 2]\\sup) = 0'))
+    add('group qualifier on a non-entity expression', 'built-in constant', wrap(sup % '(CONST_E\\sup) = 0'))
+    add('group qualifier on a non-entity expression', 'integer attribute', wrap(sup % '(SELF.a\\sup) = 0'))
+    add('group qualifier on SELF', 'where rule', wrap(sup % 'SELF\\sup.a > 0'))
     add('subtype cycle', 'attribute looked up through the cycle',
         wrap('ENTITY a\n  SUBTYPE OF (b);\n  x : INTEGER;\nEND_ENTITY;\nENTITY b\n  SUBTYPE OF (a);\n  y : INTEGER;\nEND_ENTITY;\n'
              'ENTITY c\n  SUBTYPE OF (b);\n  z : INTEGER;\nDERIVE\n  SELF\\a.x : INTEGER := 1;\nEND_ENTITY;\n'))
